@@ -98,8 +98,11 @@ package main
 //@   acquires-level 5
 //@   requires validServer(s) && startErrCh != nil && !closed(startErrCh) && stopErrCh != nil && !closed(stopErrCh) && stopCh != nil
 // start function of a generation
+// Every service of every generation is given the server's one replay cache.
 //@ func (*OutlineServer).runConfig$1$1
 //@   props C07 C09 C10 C18
+//@   trace[C07,one-cache-for-all-services] each service.WithReplayCache satisfies $arg0 == &s.replayCache
+//@   trace[C07,every-service-gets-the-cache] each service.NewShadowsocksService satisfies evcount("service.WithReplayCache") >= 1
 //@   acquires-level 5
 //@   arith-trusted the number of configured access keys does not overflow an int
 //@   requires validServer(s) && lnSet != nil && lnSet.manager != nil
@@ -118,7 +121,7 @@ package main
 //@   goroutine
 //@   requires validServer(server) && sigHup != nil
 //@ func RunOutlineServer
-//@   props C07 C18
+//@   props C07 C18 C19
 //@   requires replayHistory <= 20000 && validServerMetrics(serverMetrics)
 
 //@ func newCipherListFromConfig
